@@ -61,7 +61,7 @@ PROPS = {
   'rule': 'buildRootsLeaves with leaf sizes 1..40 on lists whose length is an exact multiple / leaves a short tail / is arbitrary; optimizeDirectories on regular and '
           'incompressible lists of 0..20000 (quick) / ..10^6 (thorough) entries at the sizes where the flat-root rule and the leaf-size steps change, budgets 16257/2000/40; '
           'NoCompression results compared byte-exactly (length+md5 of root and leaves) with the model, gzip results checked by the independent reader; badly compressing lists '
-          'searched so that the flat gzip root lands within +-100 bytes of the budget. Non-trivial: more entries than one leaf holds; distinct by case line',
+          'searched so that the flat gzip root lands within +-100 bytes of the budget. Non-trivial: more entries than one leaf holds; distinct by case line Regular lists (given by parameters) whose pointer tile-ID deltas sit just below a varint size boundary at the first leaf size, one entry more than a whole number of leaves, budgets 120/170 that the first attempt just misses.',
   'trusted_base': [GZIP + '; for the theorems gzip is any serializer with a round trip',
                    'Flocq (float32 leaf-size sequence): the literal sequence of coq/Model/DirBuild.v is proved equal to the Flocq computation (Proofs/DirBuildF32.v, depends on the '
                    'standard-library real-number axioms through Flocq); that float32(len)/3500 < 4096 for every len < 14,336,000 is checked at the boundary and by the harness, monotonicity of float32 division is not proved'],
@@ -117,7 +117,7 @@ PROPS = {
   'rule': 'archives over all tile types (incl. unknown 0/6/255) x tile compressions (incl. unknown) x zoom ranges, shared contents, metadata with unicode/nesting/HTML characters or {}, '
           'negative bounds, with and without public URL; requests: stored and absent tiles, zoom out of range, wrong extension, unknown archive, metadata, TileJSON, "/", unknown paths; '
           'methods GET/HEAD/POST/DELETE/OPTIONS/PUT; conditional headers If-None-Match (same/other/*) and If-Match (same/other). ETags compared across all responses of the run. '
-          'All cases non-trivial; distinct by case line',
+          'All cases non-trivial; distinct by case line A third of the archives carry metadata that is not a fixed point of JSON re-encoding (unsorted keys, whitespace, HTML characters, integers beyond 2^53, exponent notation); the metadata endpoint must return the stored bytes.',
   'trusted_base': ['net/http.ServeContent (conditional evaluation transcribed in Model/Http.v), httptest.ResponseRecorder', 'encoding/json and Go float formatting: TileJSON numbers are compared after rounding to E7',
                    'xxhash64: "different bodies => different ETag" is checked on the bodies of one run (no-collision assumption)',
                    'content type of archives with an UNKNOWN tile type is sniffed by net/http and not compared'],
@@ -153,7 +153,7 @@ PROPS = {
   'rule': 'fault schedules: each fault kind (generic error, not found, 412, 416, cancelled, mid-stream read error, short / empty / garbage bytes) at each of the first seven bucket-call positions of a script of 1..3 requests, '
           'cache sizes 0 / 1 / 64 MB, followed by recovery requests for the same and another archive; malformed objects: truncation at every length class, header-field corruption incl. values near 2^64, random bytes, '
           'corrupted magic, flipped bytes in directories, cuts inside the root directory. Every schedule runs in a child process: a crash or hang of the server is an observable outcome. '
-          'Fault schedules are compared step by step with the model; malformed objects are judged by the oracle only. All cases non-trivial; distinct by case line',
+          'Fault schedules are compared step by step with the model; malformed objects are judged by the oracle only. All cases non-trivial; distinct by case line Well-formed headers over root directories announcing 2^36..2^64-1 entries in a few bytes (plain and gzip-wrapped).',
   'trusted_base': ['the Go scheduler, channel semantics and real time are abstracted to an interleaving LTS (coq/Model/Server.v); "completes in bounded time" is checked as: no crash, no hang within the watchdog, and no request waiting while nothing is pending',
                    'byte-level outcomes of a fetch (short, empty, garbage, unparsable) are abstracted to "the fetch fails"; that the real parser does so is what the child-process runs check', GZIP],
   'assumptions': ['wrong bytes returned as a successful tile read cannot be detected by the server and are not injected'],
@@ -163,7 +163,7 @@ PROPS = {
   'rule': 'RelevantEntries on directories with runs, leaf pointers and interval bitmaps (incl. intervals starting/ending exactly on entry boundaries), reencodeEntries on lists with shared contents, '
           'MergeRanges on range lists with pairwise distinct gaps (monotone and with backward jumps) x overfetch in {0,0.05,0.1,0.125,0.2,0.33,1,2.5,10}; end to end: clustered sources (runs crossing zoom '
           'boundaries, shared contents, root-only / one leaf level, gzip/none internals) x zoom ranges x overfetch x 1..4 threads x file/HTTP source, output compared with the model and re-run under four '
-          'other configurations for byte identity. Non-trivial: more than two entries/ranges or end to end; distinct by case line',
+          'other configurations for byte identity. Non-trivial: more than two entries/ranges or end to end; distinct by case line reencodeEntries additionally on heavily shared pooled contents thinned as a region does, with an oracle that copying the listed ranges puts the source bytes of every tile where its new entry points.',
   'trusted_base': [GZIP, 'roaring64 bitmap modelled as a list of half-open intervals', 'Flocq (float32 budget): theorems about budget_f32 depend on the standard-library real-number axioms through Flocq',
                    'errgroup/mutex work distribution abstracted to "plans executed in any order" (C07_schedule_independent)'],
   'assumptions': ['sources are clustered and well formed, with at most one leaf level (the Go code panics beyond)'],
